@@ -27,6 +27,7 @@ REQUIRED = [
 NAMES = ["x", "y"]
 VALUES = [1, 2]
 ATOMS = 3
+PROCS = 12
 
 # ---------------------------------------------------------------------------------------------
 # real side
@@ -147,12 +148,25 @@ class Real:
   def __init__(self, hook=None):
     self.R = []
     self.hook = hook
+    self.quiet = False
+
+  def _cs(self, s):
+    return None if self.quiet else canon_state(s)
 
   def _h(self, kind, **info):
     if self.hook:
       self.hook(kind, info)
 
   def line(self, line):
+    if line.startswith("! "):
+      self.quiet = True
+      try:
+        self._line(line[2:])
+      except (BadOp, IndexError, ValueError):
+        pass
+      finally:
+        self.quiet = False
+      return None
     try:
       return self._line(line)
     except BadOp:
@@ -198,14 +212,14 @@ class Real:
       s = S.BlockState(dict(d), condition=c)
       self.R.append(s)
       self._h("new", state=s)
-      return canon_state(s)
+      return self._cs(s)
     if op == "sv" and len(w) == 4 and not rest:
       i = self._reg(w[1])
       var = V.Variable.from_value(int(w[3]))
       before = self._snap(self.R[i])
       self.R[i].store_local(w[2], var)
       self._h("store", before=before, name=w[2], var=var, state=self.R[i])
-      return canon_state(self.R[i])
+      return self._cs(self.R[i])
     if op == "sl" and len(w) == 5 and not rest:
       i, j = self._reg(w[1]), self._reg(w[3])
       try:
@@ -215,33 +229,33 @@ class Real:
       before = self._snap(self.R[i])
       self.R[i].store_local(w[2], var)
       self._h("store", before=before, name=w[2], var=var, state=self.R[i])
-      return canon_state(self.R[i])
+      return self._cs(self.R[i])
     if op == "sb" and len(w) == 3:
       i = self._reg(w[1])
       var = build_var(rest, on_apply)
       before = self._snap(self.R[i])
       self.R[i].store_local(w[2], var)
       self._h("store", before=before, name=w[2], var=var, state=self.R[i], handbuilt=True)
-      return canon_state(self.R[i])
+      return self._cs(self.R[i])
     if op == "wc" and len(w) >= 2 and not rest:
       i = self._reg(w[1])
       c = build_cond(w[2:], on_apply)
       r = self.R[i].with_condition(c)
       self.R.append(r)
       self._h("wc", src=self.R[i], cond=c, result=r)
-      return canon_state(r)
+      return self._cs(r)
     if op == "mg" and len(w) == 3 and not rest:
       i, j = self._reg(w[1]), self._reg(w[2])
       r = self.R[i].merge_into(self.R[j])
       self.R.append(r)
       self._h("mg", a=self.R[i], b=self.R[j], result=r)
-      return canon_state(r)
+      return self._cs(r)
     if op == "mn" and len(w) == 2 and not rest:
       i = self._reg(w[1])
       r = self.R[i].merge_into(None)
       self.R.append(r)
       self._h("mn", a=self.R[i], result=r)
-      return canon_state(r)
+      return self._cs(r)
     if op == "ld" and len(w) == 3 and not rest:
       i = self._reg(w[1])
       try:
@@ -253,6 +267,10 @@ class Real:
       return canon_locals(self.R[i].get_locals())
     if op == "dump" and len(w) == 1 and not rest:
       return " ;; ".join(canon_state(s) for s in self.R)
+    if op == "pop" and len(w) == 1 and not rest:
+      if self.R:
+        self.R.pop()
+      return None
     raise BadOp()
 
   @staticmethod
@@ -327,15 +345,17 @@ def step_ops(r, conds):
   return ops
 
 
+def _rec_exhaustive(prefix, r, left, conds):
+  yield prefix
+  if left == 0:
+    return
+  for line, push in step_ops(r, conds):
+    yield from _rec_exhaustive(prefix + [line], r + push, left - 1, conds)
+
+
 def gen_exhaustive(maxlen, conds):
   """All op sequences of length <= maxlen starting from one empty state."""
-  def rec(prefix, r, left):
-    yield prefix
-    if left == 0:
-      return
-    for line, push in step_ops(r, conds):
-      yield from rec(prefix + [line], r + push, left - 1)
-  yield from rec(["new T"], 1, maxlen)
+  yield from _rec_exhaustive(["new T"], 1, maxlen, conds)
 
 
 @functools.lru_cache(maxsize=None)
@@ -493,10 +513,101 @@ def chunks(it, n):
     yield buf
 
 
-def run_parallel(case_iter, chunk=2000, procs=12):
+def run_parallel(case_iter, chunk=2000, procs=1):
+  """Compares the cases chunk by chunk; in-process unless procs > 1 (the work is cheap: about 10 us per
+  operation on either side, so only the thorough tier forks)."""
   dis, total, nontriv = [], 0, set()
+  if procs <= 1:
+    for d, n, nt in map(_worker, chunks(case_iter, chunk)):
+      dis += d
+      total += n
+      nontriv |= nt
+    return dis, total, nontriv
   with multiprocessing.get_context("fork").Pool(procs) as pool:
     for d, n, nt in pool.imap_unordered(_worker, chunks(case_iter, chunk)):
+      dis += d
+      total += n
+      nontriv |= nt
+  return dis, total, nontriv
+
+
+_EX = {}
+
+
+def parents(maxlen, conds):
+  """Every sequence of length < maxlen (with its register count): the parents of the enumeration."""
+  out = []
+
+  def rec(prefix, r, k):
+    out.append((prefix, r))
+    if k + 1 < maxlen:
+      for line, push in step_ops(r, conds):
+        rec(prefix + [line], r + push, k + 1)
+  rec(["new T"], 1, 0)
+  return out
+
+
+def family_script(prefix, r, conds, with_self):
+  """Protocol lines printing one register dump per child sequence `prefix + [op]` (and for `prefix`
+  itself if with_self).  Children ending in an op that only appends a register share one run of the prefix
+  (dump, then `pop`); children ending in the in-place store_local get a fresh run each.  Returns
+  (lines, labels) with labels[k] = the stand-alone sequence whose final dump is output k."""
+  pre = ["reset"] + ["! " + l for l in prefix]
+  lines, labels = list(pre), []
+  if with_self:
+    lines.append("dump")
+    labels.append(prefix)
+  ops = step_ops(r, conds)
+  for line, push in ops:
+    if push:
+      lines += ["! " + line, "dump", "pop"]
+      labels.append(prefix + [line])
+  for line, push in ops:
+    if not push:
+      lines += pre + ["! " + line, "dump"]
+      labels.append(prefix + [line])
+  return lines, labels
+
+
+def _worker_family(task):
+  plist, with_self_root = task
+  conds = _EX["conds"]
+  lines, labels = [], []
+  for prefix, r in plist:
+    l, lab = family_script(prefix, r, conds, with_self_root and len(prefix) == 1)
+    lines += l
+    labels += lab
+  model = _DRV.batch(lines)
+  real = real_run(lines)
+  dis = []
+  nontriv = set()
+  if len(real) != len(labels) or len(model) != len(labels):
+    dis.append({"lines": ["<family batch>"], "real": ["%d outputs" % len(real)],
+                "model": ["%d outputs, %d expected" % (len(model), len(labels))]})
+  for lab, a, b in zip(labels, real, model):
+    if a != b:
+      if len(dis) < 20:
+        dis.append({"lines": lab + ["dump"], "first_diff_output": len(lab), "real": [a], "model": [b]})
+    if _nontrivial(a):
+      nontriv.add(a)
+  return dis, len(labels), nontriv
+
+
+def run_exhaustive(maxlen, conds, procs):
+  """All sequences of length <= maxlen from one empty state, grouped by parent (see family_script)."""
+  _EX["conds"] = conds
+  ps = parents(maxlen, conds)
+  tasks = [(ch, True) for ch in chunks(ps, 100)]
+  dis, total, nontriv = [], 0, set()
+  if procs <= 1:
+    results = map(_worker_family, tasks)
+    for d, n, nt in results:
+      dis += d
+      total += n
+      nontriv |= nt
+    return dis, total, nontriv
+  with multiprocessing.get_context("fork").Pool(procs) as pool:
+    for d, n, nt in pool.imap_unordered(_worker_family, tasks):
       dis += d
       total += n
       nontriv |= nt
@@ -507,10 +618,15 @@ def with_dump(seq):
   return seq + ["dump"]
 
 
+def quiet_dump(seq):
+  """Only the final register dump is printed (every prefix is itself a case of the enumeration)."""
+  return ["! " + l for l in seq] + ["dump"]
+
+
 def correspond(res, rng, tier):
   global _DRV
   mods()
-  _DRV = common.ensure_driver("drv_c18")
+  _DRV = common.Driver("drv_c18")  # built (up to date) by stage P via extra_targets
   t0 = time.time()
   disagreements = []
   dist = {}
@@ -528,7 +644,7 @@ def correspond(res, rng, tier):
            "a0 a1 a2 a0 a1 A5", "F a0 N a0 A3", "a0 N a0 F A3", "T a0 N a0 O3", "a0 N a0 T O3"]
   rc = [rand_cond(rng, 4) for _ in range(3000 if tier == "quick" else 30000)]
   cond_cases = [["cond " + e] for e in d1 + l2 + l3 + extra + rc]
-  d, n, _ = run_parallel(iter(cond_cases), chunk=20000)
+  d, n, _ = run_parallel(iter(cond_cases), chunk=20000, procs=PROCS if tier == "thorough" else 1)
   disagreements += d
   dist["cond_terms"] = {"depth1_exprs": len(d1), "depth1_distinct": len(r1), "depth2_exprs": len(l2),
                         "depth<=2_distinct": len(r2), "depth3_exprs": len(l3),
@@ -543,15 +659,15 @@ def correspond(res, rng, tier):
   # 3) state histories: exhaustive over the property's own space
   maxlen = 4 if tier == "thorough" else 3
   n_ex_expected = sum(count_exact(k, 1, len(r1)) for k in range(maxlen + 1))
-  d, n_ex, nt_ex = run_parallel((with_dump(s) for s in gen_exhaustive(maxlen, r1)), chunk=3000)
+  d, n_ex, nt_ex = run_exhaustive(maxlen, r1, PROCS if tier == "thorough" else 1)
   disagreements += d
   dist["exhaustive"] = {"max_len": maxlen, "sequences": n_ex, "expected": n_ex_expected,
                         "conditions": len(r1), "names": NAMES, "values": VALUES}
   n_s4 = 0
   nt_s4 = set()
   if tier != "thorough":
-    s4 = [with_dump(sample_exact(rng, 4, r1)) for _ in range(40000)]
-    d, n_s4, nt_s4 = run_parallel(iter(s4), chunk=2500)
+    s4 = [quiet_dump(sample_exact(rng, 4, r1)) for _ in range(40000)]
+    d, n_s4, nt_s4 = run_parallel(iter(s4), chunk=5000)
     disagreements += d
     dist["sampled_len4"] = n_s4
 
@@ -564,7 +680,7 @@ def correspond(res, rng, tier):
     L = rng.randint(5, 30)
     lens.append(L)
     rnd.append(with_dump(gen_random(rng, L, hand=(k % 10 == 0))))
-  d, n_rnd, nt_rnd = run_parallel(iter(rnd), chunk=100)
+  d, n_rnd, nt_rnd = run_parallel(iter(rnd), chunk=500, procs=PROCS if tier == "thorough" else 1)
   disagreements += d
   dist["random"] = {"sequences": n_rnd, "len_min": min(lens), "len_max": max(lens),
                     "mean_len": round(sum(lens) / len(lens), 1)}
@@ -596,6 +712,7 @@ def correspond(res, rng, tier):
          "" if tier == "thorough" else " and %d uniformly sampled length-4 sequences" % n_s4, n_rnd))
   dist["wall_s"] = round(time.time() - t0, 1)
   res.cov["distribution"] = dist
+  disagreements.sort(key=lambda d: (len(d.get("lines", [])), sum(len(l) for l in d.get("lines", []))))
   res.add_samples([{"cond": "a0 N a1 T O2 A2", "canon": real_run(["cond a0 N a1 T O2 A2"])[0]},
                    {"history": rnd[0][:8], "final": real_run(rnd[0])[-1][:300]},
                    {"guard_point": GUARD_SEQ, "real": real_run(GUARD_SEQ)[-1]}])
@@ -751,11 +868,36 @@ def oracle_failures(lines, allow_dup=False):
                           "merged": canon_state(info["result"]), "name": x, "valuation": show_rho(rho),
                           "got": sorted(got), "expected": sorted(want)})
             return
-  out = real_run(lines, hook)
-  for o in out:
-    if o.startswith("exc:"):
-      fails.append({"oracle": "no exception", "output": o})
+  r = Real(hook)
+  for l in lines:
+    l = unquiet(l)
+    before = [snap(s) for s in r.R]
+    w = l.split()
+    try:
+      r.line(l)
+    except Exception as e:  # pylint: disable=broad-except
+      fails.append({"oracle": "no exception", "line": l, "exception": repr(e)})
+      break
+    tgt = int(w[1]) if len(w) > 1 and w[0] in ("sv", "sl", "sb") and w[1].isdigit() else None
+    if w and w[0] == "reset":
+      continue
+    for i, sb in enumerate(before):
+      if i == tgt:
+        continue
+      sa = snap(r.R[i]) if i < len(r.R) else ({}, mods()["c"].FALSE, set())
+      at = snap_atoms(sb, snap_atoms(sa, set())) | set(range(ATOMS))
+      bad = next(((x, rho) for rho in valuations(at) for x in set(sb[0]) | set(sa[0])
+                  if vals(sb, x, rho) != vals(sa, x, rho)), None)
+      if bad:
+        fails.append({"oracle": "an operation leaves the meaning of every other state untouched", "line": l,
+                      "register": i, "name": bad[0], "valuation": show_rho(bad[1]),
+                      "before": vals(sb, bad[0], bad[1]), "after": vals(sa, bad[0], bad[1])})
+        break
   return fails
+
+
+def unquiet(l):
+  return l[2:] if l.startswith("! ") else l
 
 
 def pushes(line):
@@ -817,7 +959,7 @@ def search(res, rng, disagreements, pfail):
   t0 = time.time()
 
   def consider(lines):
-    lines = [l for l in lines if l != "dump"]
+    lines = [unquiet(l) for l in lines if l != "dump"]
     fs = oracle_failures(lines)
     if not fs:
       return False
@@ -868,7 +1010,7 @@ def witnesses(res):
 
 def main():
   return common.run_check(
-      "C18", REQUIRED, correspond, witnesses, search,
+      "C18", REQUIRED, correspond, witnesses, search, extra_targets=["drv_c18"],
       trusted=[
           "hand-written Lean model of conditions.py, Binding/Variable.from_value/with_condition/with_name and all "
           "of BlockState; tied to /repo only by the correspondence runs",
